@@ -11,7 +11,9 @@ CLAIMED = {
         "i<j are more than (j-i-1) intervals apart; constructor refuses rps<=0 and interval 0.  The generated model is run (extracted) against "
         "the real RPSPolicer.wait_sync/wait on exhaustive small and random boundary histories, and the inequalities are re-evaluated on the implementation's results."
         "  Through a session: C19_session_policed / C19_session_policed_count over Model/PyLayer.v (every API call of both clients, on any script of socket results: each request is released by exactly one consultation of the session's policer); real rate-limited sessions are driven for every operation with a counting policer, and the Python layer alone is run on scripted socket results against the extracted model; C19_program_policed extends this to programs "
-        "(several iterators and calls interleaved on one session, each continued after an exception), run the same way.",
+        "(several iterators and calls interleaved on one session, each continued after an exception), run the same way.  C19_wire_window "
+        "(Proofs/PolicerWire.v) composes the two: a datagram leaves between its request's release and the next consultation, so the datagrams "
+        "of requests i<j are more than (j-i-2) intervals apart - the long-run rate on the wire never exceeds rps.",
    note="Trusted: Coq kernel/VM; py2coq translator (validated each run against policer.py); extraction (ExtrOcamlBasic) + OCaml driver; the float quotient NS/rps "
         "is an input of the constructor model; sleep/perf_counter_ns replaced by a logical clock. No axioms (Closed under the global context).",
    technique="Coq proof by induction over call histories on a model regenerated from source; differential run of extracted model vs policer.py",
@@ -98,7 +100,10 @@ CLAIMED = {
         "v2c/v3 end-of-MIB behaviour, the GetNext walk, the GetBulk walk and fetch() yield exactly the entries strictly below the base, in "
         "order, once, then stop.  Key lemmas: byte-prefix on canonical BER = sub-identifier prefix, is_after = lexicographic order, the subtree "
         "is a contiguous interval.  630+ walks of the real client (v1, v2c, v3 noAuth, v3 MD5+DES; sync/async) against an independent MIB agent."
-        "  Every API walk is also replayed in Model.Walk (the functions the theorems are about) on the replies the agent really gave.",
+        "  Every API walk is also replayed in Model.Walk (the functions the theorems are about) on the replies the agent really gave."
+        "  C05_sync_async_same (Model/PyLayer.v): on every script of socket results without busy sockets and timer expiries, every API call of "
+        "the asyncio SnmpSession yields the items, outcome, unread rest and policer consultations of the blocking one; the layer is run on "
+        "scripted sockets against the extracted model (single calls and programs; C05_program_sync_async_same is the same statement for programs).",
    note="Trusted: Coq kernel; hand model of GetIter/OpGetNext/OpGetBulk and of the Python iterators tied by differential execution (C06) and "
         "by the API walks; the reference agent is a specification, the test agent an independent Python implementation. No axioms.",
    technique="Coq proof by induction over the sorted MIB; API walks against an independent RFC 3416 agent",
@@ -111,9 +116,12 @@ CLAIMED = {
         "crashes, and makes at most |U|+1 requests when reply OIDs come from a finite set U (C06_terminates, C06_request_bound_*).  "
         "Exhaustive reply streams over a 9-OID x 4-value universe (54872 GetNext streams of depth 3, ~19k GetBulk) through the real "
         "OpGetNext/OpGetBulk + GetIter (debug+release), and scripted agents incl. repeating ones against the real iterators."
-        "  C06_getbulk_context / C06_sync_buffer_drained over Model/PyLayer.v; API walks with oversized GetBulk replies are also run in Model.Walk and the follow-up OID of every request is checked.",
-   note="Trusted: Coq kernel; hand model tied by exhaustive differential execution. The repeated-OID defect of the pinned commit was repaired "
-        "by a fix: commit (known_findings.json). No axioms.",
+        "  C06_getbulk_context / C06_sync_buffer_drained over Model/PyLayer.v; API walks with oversized GetBulk replies are also run in Model.Walk and the follow-up OID of every request is checked."
+        "  C06_yielded_texts_distinct (Proofs/WalkKeys.v): the OID STRINGS handed to the caller are pairwise distinct whatever the agent replies (the "
+        "renderer refuses sub-identifiers above 2^32-1 since fix 2a19463; before, .1 and .4294967297 were reported as one entry twice); "
+        "walks with sub-identifiers 2^32-1..2^64+5 are run and the yielded strings judged.",
+   note="Trusted: Coq kernel; hand model tied by exhaustive differential execution. The repeated-OID defect of the pinned commit and the "
+        "32-bit rendering of wider sub-identifiers were repaired by fix: commits (known_findings.json). No axioms.",
    technique="Coq invariants over arbitrary reply streams; exhaustive small-universe differential run; adversarial API agents",
    ref="5 C06"),
  "C07": dict(
